@@ -3,7 +3,7 @@ CONSTANTS
   NT = 2
   Prog <- SmallProg
   Kind = "cached"
-  Sizes = {80, 100}
+  Sizes = {1, 2, 3}
   MaxResize = 0
   Variant <- EnvVariant
 INVARIANT BodyOnce
